@@ -8,10 +8,12 @@ import (
 	"io/fs"
 	"log/slog"
 	"os"
+	"os/exec"
 	"path/filepath"
 	"runtime"
 	"sort"
 	"strings"
+	"sync"
 	"testing"
 	"time"
 
@@ -47,6 +49,57 @@ type Case struct {
 	// Edits are applied to the tree between the first and the second run (an edited template gets
 	// a modification time later than anything the first run wrote).
 	Edits []Edit `json:"edits,omitempty"`
+	// Binary: run the compiled templ command (`templ generate -path ...`) as a child process
+	// instead of calling generatecmd.Run in this process.
+	Binary bool `json:"binary,omitempty"`
+}
+
+var (
+	binOnce sync.Once
+	binPath string
+)
+
+// templBinary builds /repo's cmd/templ once per test process.
+func templBinary() string {
+	binOnce.Do(func() {
+		dir := os.Getenv("VERIF_SCRATCH")
+		if dir == "" {
+			dir = os.TempDir()
+		}
+		binPath = filepath.Join(dir, fmt.Sprintf("templ-bin-%d", os.Getpid()))
+		cmd := exec.Command("go", "build", "-o", binPath, "github.com/a-h/templ/cmd/templ")
+		cmd.Dir = tc.HarnessDir()
+		cmd.Env = append(os.Environ(), "GOFLAGS=-mod=mod", "GOPROXY=off", "GOSUMDB=off", "GOTOOLCHAIN=local")
+		if out, err := cmd.CombinedOutput(); err != nil {
+			panic(fmt.Sprintf("harness: cannot build cmd/templ: %v\n%s", err, out))
+		}
+	})
+	return binPath
+}
+
+// runBinary runs `templ generate` the way a user does. A non-zero exit status is the error.
+func runBinary(c Case, root string) error {
+	args := []string{"generate", "-path", root, "-w", fmt.Sprint(c.Workers), fmt.Sprintf("-include-version=%v", c.Version), "-log-level", "error"}
+	if c.KeepOrphans {
+		args = append(args, "-keep-orphaned-files")
+	}
+	if c.Lazy {
+		args = append(args, "-lazy")
+	}
+	cmd := exec.Command(templBinary(), args...)
+	cmd.Dir = filepath.Dir(root)
+	cmd.Env = os.Environ()
+	if c.Procs > 0 {
+		cmd.Env = append(cmd.Env, fmt.Sprintf("GOMAXPROCS=%d", c.Procs))
+	}
+	out, err := cmd.CombinedOutput()
+	if err != nil {
+		if _, ok := err.(*exec.ExitError); ok {
+			return fmt.Errorf("templ generate exited with %v: %s", err, clip(string(out)))
+		}
+		panic("harness: cannot run the templ binary: " + err.Error())
+	}
+	return nil
 }
 
 // Edit replaces the content of a .templ file of the tree, or removes it.
@@ -58,7 +111,7 @@ type Edit struct {
 
 var rec = ev.New("C15", "c15.tree",
 	"generated directory trees (depth <=4, <=40 files; directory names normal / vendor / node_modules / .x / _x / look-alikes vendor2, x_, a.b; files: distinct valid .templ, unparsable .templ, .templ whose Go does not gofmt, stale (short, long, or the output of another template) / newer _templ.go, orphaned _templ.go, other .go and other files; explicit mtimes) "+
-		"x flags keep-orphaned / lazy / include-version x worker count 1..32 x GOMAXPROCS; generatecmd.Run in-process under -race, twice; in two thirds of the cases 1-4 templates are edited between the runs (replaced by another valid template with shorter or longer output, emptied, broken, or removed) and the second run is compared with the expectation for the edited tree. Oracle: an expected tree computed independently per file (single-file parse+generate+gofmt with the file's relative name; own skip rule; orphan and lazy rules); every path and byte compared; error returned iff some reachable .templ is ungenerable; without edits the second run changes no content. "+
+		"x flags keep-orphaned / lazy / include-version x worker count 1..32 x GOMAXPROCS; generatecmd.Run in-process under -race - or, in a quarter of the cases, the compiled `templ generate` command as a child process - twice; in two thirds of the cases 1-4 templates are edited between the runs (replaced by another valid template with shorter or longer output, emptied, broken, or removed) and the second run is compared with the expectation for the edited tree. Oracle: an expected tree computed independently per file (single-file parse+generate+gofmt with the file's relative name; own skip rule; orphan and lazy rules); every path and byte compared; error returned iff some reachable .templ is ungenerable; without edits the second run changes no content. "+
 		"Non-trivial = tree has a skipped directory containing a .templ, an orphan, and >=2 generable files; distinct by (tree, flags, workers)")
 
 var discard = slog.New(slog.NewTextHandler(io.Discard, nil))
@@ -289,7 +342,11 @@ func decide(c Case) (err error) {
 					err = runErr
 				}
 			}()
-			runErr = generatecmd.Run(context.Background(), discard, args)
+			if c.Binary {
+				runErr = runBinary(c, root)
+			} else {
+				runErr = generatecmd.Run(context.Background(), discard, args)
+			}
 		}()
 		select {
 		case <-done:
@@ -368,6 +425,7 @@ var genCase = rapid.Custom(func(t *rapid.T) Case {
 		KeepOrphans: rapid.IntRange(0, 3).Draw(t, "keep") == 0,
 		Lazy:        rapid.IntRange(0, 3).Draw(t, "lazy") == 0,
 		Version:     rapid.IntRange(0, 3).Draw(t, "version") == 0,
+		Binary:      rapid.IntRange(0, 3).Draw(t, "binary") == 0,
 	}
 	nDirs := rapid.IntRange(1, 8).Draw(t, "ndirs")
 	dirs := []string{""}
@@ -490,6 +548,9 @@ func TestPropTree(t *testing.T) {
 		rec.Class(fmt.Sprintf("workers=%d", c.Workers))
 		if len(c.Edits) > 0 {
 			rec.Class("edits between runs")
+		}
+		if c.Binary {
+			rec.Class("compiled templ binary")
 		}
 		if c.Lazy {
 			rec.Class("lazy")
